@@ -442,7 +442,7 @@ def random_spec(rng, sid, nmin=3, nmax=6, external=False, decoy=False, struct_va
     elems = []
     produced = []   # abstract types available
     args = []
-    alias = {'a/util': 'util', 'b/util': 'butil', 'c/vals': 'vals', 'c/ifs': 'ifs'} if external else {}
+    alias = {'a/util': 'util', 'b/util': 'butil', 'c/vals': 'vals', 'c/ifs': 'ifs', 'c/extra': 'extra'} if external else {}
     nT = [0]
     twin_done = [False]
     map_done = [False]
@@ -539,6 +539,9 @@ def random_spec(rng, sid, nmin=3, nmax=6, external=False, decoy=False, struct_va
             listed = ['*'] if rng.random() < 0.5 else [f[0] for f in fields[: rng.randint(1, len(fields))]]
             if listed == ['*'] and rng.random() < 0.5:
                 fields[-1][0] = 'f%d' % (len(fields) - 1)      # wire fills unexported fields of a struct of the injector's own package
+            if external and listed != ['*'] and rng.random() < 0.6:
+                # a field nobody selects, of a type whose package the configuration mentions nowhere else
+                fields.append(['Fx', new_type(pkg='c/extra')])
             types[sname] = {'form': 'bstruct', 'fields': fields, 'pkg': ''}
             if listed != ['*'] and any(types.get(ft.lstrip('*'), {}).get('form') == 'bstruct' and not ft.startswith('*')
                                        for fn_, ft in fields if fn_ not in listed):
@@ -555,6 +558,8 @@ def random_spec(rng, sid, nmin=3, nmax=6, external=False, decoy=False, struct_va
             nS += 1
             f1, f2 = new_type(), new_type()
             types[sname] = {'form': 'fstruct', 'fields': [['Fa', f1], ['Fb', f2]], 'pkg': ''}
+            if external and rng.random() < 0.6:
+                types[sname]['fields'].append(['Fx', new_type(pkg='c/extra')])     # never selected by FieldsOf
             fname = rng.choice(names) % sname
             funcs.append({'name': fname, 'requires': pick_inputs(2), 'provides': sname, 'fallible': rng.random() < 0.3, 'pkg': ''})
             elems.append({'kind': 'func', 'name': fname})
@@ -601,6 +606,17 @@ def random_spec(rng, sid, nmin=3, nmax=6, external=False, decoy=False, struct_va
                 funcs.append({'name': fname, 'requires': [], 'provides': t, 'fallible': False, 'pkg': pkg, 'decoy': True})
         else:
             produced.append(t)
+    if external and not any(f_[0] == 'Fx' for t_ in types.values() for f_ in t_.get('fields', [])):
+        # make sure every configuration with sub-packages has a struct taken apart by FieldsOf with a field nobody selects,
+        # of a type whose package the configuration mentions nowhere else
+        sname = 'S%d' % nS
+        nS += 1
+        f1 = new_type()
+        types[sname] = {'form': 'fstruct', 'fields': [['Fa', f1], ['Fx', new_type(pkg='c/extra')]], 'pkg': ''}
+        funcs.append({'name': 'Make' + sname, 'requires': [], 'provides': sname, 'fallible': False, 'pkg': ''})
+        elems.append({'kind': 'func', 'name': 'Make' + sname})
+        elems.append({'kind': 'fieldsof', 'type': sname, 'fields': ['Fa']})
+        produced.append(f1)
     # sink: consumes everything nobody consumed (wire rejects unused providers)
     consumed = set()
     for f in funcs:
